@@ -96,7 +96,7 @@ def run_case(args):
     prev_kind = R.choice(['absent', 'shorter', 'equal', 'longer', 'longer'])
     files = {'f1': data}
     bad = []
-    form = R.choice(['w', 'w', 'range', 'range', 'own', 'wq', 'print', 'read-mid', 'vi-w', 'vi-ZZ'])
+    form = R.choice(['w', 'w', 'range', 'range', 'own', 'wq', 'print', 'read-mid', 'vi-w', 'vi-ZZ', 'xa', 'aw-q', 'reread'])
     if form.startswith('vi'):
         try:
             data.decode('utf-8')
@@ -109,6 +109,7 @@ def run_case(args):
     script = b''
     exp_out = None
     exp_print = None
+    exp_second = None
     if form in ('w', 'vi-w'):
         exp_out = expected(lines)
         script = b'w! out\n'
@@ -142,6 +143,27 @@ def run_case(args):
             pos = R.randint(1, n)
             script = b'%dr f2\nw! out\n' % pos
             exp_out = expected(lines[:pos] + l2 + lines[pos:])
+    elif form in ('xa', 'aw-q'):
+        # a buffer that is NOT the current one is written (write-all, or autowrite at quit): its own lines, all of them
+        d2, _ = make_content(rng('c01', idx, 'second'))
+        d2 = d2[:R.choice([0, 40, 3000, 20000])]
+        files['f2'] = d2
+        l2 = split_lines(d2)
+        target = 'f1'
+        edit = n > 0 and R.random() < 0.6 or form == 'aw-q'
+        if form == 'aw-q' and n == 0:
+            form = 'xa'
+            edit = False
+        exp_out = (b'X\n' if edit else b'') + expected(lines)
+        script = (b'1i\nX\n.\n' if edit else b'') + b'e! f2\n' + (b'xa\n' if form == 'xa' else b'se aw\nq\n')
+        exp_second = ('f2', expected(l2))
+    elif form == 'reread':
+        # the file changes on disk (any size, also empty) and is read again into the same, non-empty buffer
+        d2, _ = make_content(rng('c01', idx, 'second'))
+        d2 = d2[:R.choice([0, 0, 1, 40, 3000, 20000])]
+        files['alt'] = d2
+        exp_out = expected(split_lines(d2))
+        script = b'rx z cp alt f1\ne!\nw! out\n'
     if target == 'out' and exp_out is not None:
         if prev_kind == 'shorter':
             files['out'] = exp_out[:len(exp_out) // 2]
@@ -161,6 +183,7 @@ def run_case(args):
     else:
         r, d = common.run_ex(vi, script, files=files, timeout=90)
     got = common.readf(d, target)
+    got2 = common.readf(d, exp_second[0]) if exp_second else None
     common.rmcase(d)
     wit = {'index': idx, 'content': data, 'desc': desc, 'form': form, 'range': (a, b), 'previous_target': prev_kind, 'script': script}
     rep = common.san_report(r)
@@ -179,6 +202,8 @@ def run_case(args):
                 key = 'write:not-truncated'
             return (key, '%s on %s (previous target %s): file has %d bytes, expected %d; first difference at byte %d (got %r expected %r)' % (
                 form, desc, prev_kind, len(got), len(exp_out), i, got[i:i + 20], exp_out[i:i + 20]), wit, desc, form)
+    if exp_second is not None and got2 != exp_second[1] and form == 'xa':
+        return ('write:bytes', '%s on %s: the second buffer\'s file %s has %s bytes, expected %d' % (form, desc, exp_second[0], None if got2 is None else len(got2), len(exp_second[1])), wit, desc, form)
     if exp_print is not None:
         out = r.out
         try:
@@ -207,7 +232,7 @@ def run(tier, V):
             V.violation(key, what, wit)
     cov = {'evaluations': n, 'distinct_nontrivial': n - forms.get('x', 0), 'forms': forms, 'content_kinds': kinds,
            'rule': ('%d cases: contents over bytes 1..255 (ASCII / UTF-8 / arbitrary bytes) with directed boundaries (line lengths around 128, 1024, 2048, 4096, 8192; running sums crossing the 4096-byte write '
-                    'batch at -1/0/+1; file sizes around k*1024 and 128*2^k; line counts 0,1,2,511..513,1023..1025,2049; with/without final newline) x operation (w!, a,bw!, w own path, wq, %%p, r in the middle + w, vi :w, vi x-u-:w) '
+                    'batch at -1/0/+1; file sizes around k*1024 and 128*2^k; line counts 0,1,2,511..513,1023..1025,2049; with/without final newline) x operation (w!, a,bw!, w own path, wq, %%p, r in the middle + w, vi :w, vi x-u-:w, :xa and autowrite-at-quit of a buffer that is not the current one, :e! after the file changed on disk) '
                     'x previous target (absent/shorter/equal/longer).  expected bytes computed from the input alone.  every case is distinct (seeded) and non-trivial (a file is written or printed and compared).' % n),
            'samples': [{'desc': r[3], 'form': r[4]} for r in res[:5]]}
     assumptions = ['NUL bytes are excluded (the statement says NUL-free)', 'vi-mode forms are used with valid UTF-8 contents only',
